@@ -105,6 +105,8 @@ def allSome {α : Type} : List (Option α) → Option (List α)
 def statOf (f : St) (name : String) (lo hi : Option Rat) (c : IClosed) : Option String :=
   let clipped : Except Err St := clipW f lo hi
   match name with
+  | "minmax" => some (match minIn f lo hi c, maxIn f lo hi c with
+      | some a, some b => s!"{showRat a} {showRat b}" | _, _ => "ERR Undefined")
   | "min" => some (match minIn f lo hi c with | some v => showRat v | none => "ERR Undefined")
   | "max" => some (match maxIn f lo hi c with | some v => showRat v | none => "ERR Undefined")
   | _ =>
@@ -112,7 +114,7 @@ def statOf (f : St) (name : String) (lo hi : Option Rat) (c : IClosed) : Option 
     | .error e => some (showErr e)
     | .ok g =>
       match name with
-      | "integral" => some (showVal (integral g))
+      | "integral" => some (if (valueSums g).isEmpty then "ERR Undefined" else showVal (integral g))
       | "mean" => some (match mean g with | some v => showRat v | none => "ERR Undefined")
       | "var" => some (match var g with | some v => showRat v | none => "ERR Undefined")
       | "std2" => some (match var g with | some v => showRat v | none => "ERR Undefined")
@@ -156,7 +158,16 @@ def slicerStatStr (f : St) (name : String) (c : IClosed) (iv : Iv) : String :=
       | "var" => showVal (var s)
       | _ => "bad"
 
-def step (e : Env) (line : String) : Env × String :=
+/-- distribution queries do not exist for a function without a finite defined piece (C08/C09 are stated for
+functions with at least one): the model then answers `ERR Undefined`, which the comparison accepts against anything -/
+def distUndefined (e : Env) (toks : List String) : Bool :=
+  match toks with
+  | cmd :: r :: _ =>
+    (cmd == "ecdf" || cmd == "ecdfs" || cmd == "perc" || cmd == "frac" || cmd == "quant" || cmd == "hist") &&
+      (match e.get r with | some f => (valueSums f).isEmpty | none => false)
+  | _ => false
+
+def stepCore (e : Env) (line : String) : Env × String :=
   let toks := (line.trimAscii.toString.splitOn " ").filter (· ≠ "")
   let bad : Env × String := (e, "bad-op")
   let unbound : Env × String := (e, "ERR unbound")
@@ -274,7 +285,7 @@ def step (e : Env) (line : String) : Env × String :=
       | some q =>
         let (o', a) := o.query q
         -- distribution queries and the mode do not exist without a finite defined piece
-        let undefinedQ := (Obj.needsDist q || name == "modes") && (valueSums o.f).isEmpty
+        let undefinedQ := (Obj.needsDist q || name == "modes" || name == "integral" || name == "mean") && (valueSums o.f).isEmpty
         (e.setObj r o', if undefinedQ then "ERR Undefined" else " ".intercalate (a.map showVal))
   | "agg" :: r2 :: name :: rs =>
     let F : Option AggFn := match name with
@@ -372,6 +383,28 @@ def step (e : Env) (line : String) : Env × String :=
           match firstErr with
           | some er => (e, showErr er)
           | none => (e, " ;; ".intercalate (rs.map fun r => match r with | .ok h => showFrame h | .error _ => ""))
+  | "arrayneg" :: ms =>
+    match allSome (ms.map e.get) with
+    | none => unbound
+    | some fs => (e, " ;; ".intercalate (fs.map fun f => showFrame (unop .neg f)))
+  | "slicehist" :: r :: bcl :: stat :: rest =>
+    match e.get r with
+    | none => unbound
+    | some f =>
+      let (bs, tail) := (rest.takeWhile (· ≠ "/"), (rest.dropWhile (· ≠ "/")).drop 1)
+      let st : Option HistStat := match stat with
+        | "sum" => some .sum | "frequency" => some .frequency | "density" => some .density
+        | "probability" => some .probability | _ => none
+      match parseSide bcl, st, allSome (bs.map parseRat), allSome (tail.map parseIv) with
+      | some bcl, some st, some breaks, some ivs =>
+        let bins := breaks.zip (breaks.drop 1)
+        let rows := ivs.map fun iv =>
+          match clip f (some iv.1) (some iv.2) with
+          | .ok s => if (valueSums s).isEmpty then none else some (hist s bins bcl st)
+          | .error _ => none
+        if rows.any (·.isNone) then (e, "ERR Undefined")
+        else (e, " ".intercalate (rows.flatMap fun r => (r.getD []).map showVal))
+      | _, _, _, _ => bad
   | "arraysample" :: kind :: _n :: rest =>
     let (ms, tail) := (rest.takeWhile (· ≠ "/"), (rest.dropWhile (· ≠ "/")).drop 1)
     match allSome (ms.map e.get), allSome (tail.map parseRat) with
@@ -516,6 +549,10 @@ def step (e : Env) (line : String) : Env × String :=
       | _, _ => unbound
     else bad
   | _ => bad
+
+def step (e : Env) (line : String) : Env × String :=
+  let toks := (line.trimAscii.toString.splitOn " ").filter (· ≠ "")
+  if distUndefined e toks then (e, "ERR Undefined") else stepCore e line
 
 partial def loop (h : IO.FS.Stream) (out : IO.FS.Stream) (e : Env) : IO Unit := do
   let line ← h.getLine
